@@ -86,6 +86,16 @@ CHECKS["C02"] = dict(
     note=NOTE_BASE + "PARTIAL: prefix-freeness of well-formed documents and 'accepted text contains a known opener' are premises checked per instance, not proved for Xml.Lex.",
     technique="Coq proof (structural induction over segmented streams; generic parser with decidable premises) + correspondence incl. real receive loops",
     design="4/C02")
+CHECKS["C07"] = dict(
+    text="Theorems for every device state: unnamed_request_elicits_every_definition, named_request_elicits_only_that_definition (state untouched), "
+         "definition_lists_enabled_elements_and_metadata, disabled_property_gets_no_definition; constructible_emitted_message_reads_back (C03 applied). "
+         "PARTIAL: that every emitted message is constructible (wfb over the live registry) is evaluated by the model for every emitted message on "
+         "every run, not yet proved for all reachable states. Correspondence: generated Driver class hierarchies (inheritance depth <= 3) on a real "
+         "Router with a recording client, histories of driver operations and client writes, then getProperties for existing / disabled / unknown / "
+         "absent names and devices; traces and final states compared, every emitted message round-tripped through the library's own parser.",
+    note=NOTE_BASE + "Modelled: driver property tree, number rendering (C10 model), nearest-double rounding of parsed numbers, base64.",
+    technique="Coq proof (equational characterisation of getProperties over the driver model) + correspondence on real Router deployments",
+    design="4/C07")
 PENDING = {}
 props = [json.loads(l) for l in open(os.path.join(V, "properties.jsonl"))]
 checks, na = [], []
